@@ -188,6 +188,15 @@ def str_display(ctx, args, st):
     return None
 
 
+@model(r'^(?:std::string::|alloc::string::)?String::from_utf8_unchecked$')
+def string_from_utf8_unchecked(ctx, args, st):
+    v = args[0]
+    if isinstance(v, Ref): v = st.deref_all(v)
+    if isinstance(v, VecV) and all(isinstance(x, Opaque) for x in v.items):
+        return ret(st, StrV((), 'String', {'name': 'from_utf8_unchecked', 'parts': tuple(x.tag for x in v.items)}))
+    raise Unsupported(f'String::from_utf8_unchecked of {v!r}')
+
+
 @model(r'^(?:std::string::|alloc::string::)?String::from_utf8$')
 def string_from_utf8(ctx, args, st):
     v = args[0]
@@ -197,3 +206,12 @@ def string_from_utf8(ctx, args, st):
         if all(isinstance(x, Opaque) for x in v.items):
             return ret(st, Ok(StrV((), 'String', {'name': 'from_utf8', 'parts': tuple(x.tag for x in v.items)})))
     raise Unsupported(f'String::from_utf8 of {v!r}')
+
+
+@model(r'^String::as_bytes$|^(?:core::)?str::<impl str>::as_bytes$')
+def str_as_bytes(ctx, args, st):
+    s = str_of(st, args[0])
+    c = s.concrete()
+    if c is not None:
+        return ret(st, st.ref(VecV([Int(b, 'u8') for b in c.encode('utf-8')], 'slice')))
+    return ret(st, st.ref(Opaque(('bytes-of', repr(s)))))
